@@ -13,10 +13,6 @@ except ImportError as _e:       # parts under construction
 
 # public callables that take no part, with the reason (listed in the evidence)
 EXCLUDED = {
-    "neighbors.voropp_neighbors.cal_voro": "needs the voro++ executable (not installed)",
-    "neighbors.voropp_neighbors.voronowalls": "needs the voro++ executable (not installed)",
-    "reader.gsd_reader_helper.read_gsd_wrapper": "imports gsd (not installed)",
-    "reader.gsd_reader_helper.read_gsd_dcd_wrapper": "imports gsd / mdtraj (not installed)",
     "static.vector.vector_decomposition_sq": "raises on the pinned pandas (in-place division on a read-only array) with and without history",
     "static.vector.vector_fft_corr": "calls vector_decomposition_sq (see there)",
     "static.vector.kspace_decomposition": "empty stub in the library",
@@ -78,8 +74,9 @@ def components():
                  f"({len(REG)} adapters): " + ", ".join(sorted(covered)),
                  "freud (real peer library)", "CPython io stack on tmpfs", "numpy / pandas writers and parsers"],
         "stubbed": ["LAMMPS as dump producer: harness client using the real header writer plus its own atom lines",
-                    "HOOMD trajectory / DCD peers: duck-typed in-process fakes", "LAMMPS log producer: stub",
-                    "voro++ index file for indicehis: stub peer"],
+                    "HOOMD trajectory / DCD peers: duck-typed in-process fakes; gsd / mdtraj stub modules behind the library's "
+                    "own wrappers", "LAMMPS log producer: stub",
+                    "voro++ executable: in-process stub behind voropp_neighbors.subprocess.run; voro++ index file for indicehis: stub peer"],
         "not_reached": excluded + [f"{m}: NO ADAPTER" for m in missing],
     }
 
